@@ -697,6 +697,36 @@ func (d *delegRun) skew(b []byte, op *DOp) []byte {
 	return nb
 }
 
+// skewJudge (direct oracle beside the tie): an authentic, unexpired notification-log update whose only peculiarity is
+// a sender clock a little ahead has reached a registered state of a connected peer: the peer's log must now answer the
+// query for that (receiver, group) with an entry at least that new.
+func (d *delegRun) skewJudge(pi int, b []byte, op *DOp) {
+	var p clusterpb.Part
+	if proto.Unmarshal(b, &p) != nil {
+		return
+	}
+	s, ok := d.peers[pi].byKey[p.Key]
+	if !ok || !s.isNfl {
+		return
+	}
+	now := time.Now()
+	br := bytes.NewReader(p.Data)
+	for {
+		var e nfpb.MeshEntry
+		if err := protodelim.UnmarshalFrom(br, &e); err != nil {
+			return
+		}
+		if e.Entry == nil || e.Entry.Receiver == nil || e.ExpiresAt == nil || !e.ExpiresAt.AsTime().After(now) {
+			continue
+		}
+		es, err := s.log.Query(nflog.QReceiver(e.Entry.Receiver), nflog.QGroupKey(string(e.Entry.GroupKey)))
+		if err != nil || len(es) != 1 || es[0].Timestamp.AsTime().Before(e.Entry.Timestamp.AsTime()) {
+			d.violate("update-from-faster-clock-not-merged", fmt.Sprintf("peer %d was delivered a notification-log update for %s / %s stamped %d ms ahead of its own clock (sender clock skew): the log does not hold it afterwards (query: %d entries, err %v) - the instance will notify again", pi, recvKey(e.Entry.Receiver), e.Entry.GroupKey, op.MutVal, len(es), err))
+			return
+		}
+	}
+}
+
 func (d *delegRun) localUpdateToShadow(s *stateRT) {
 	for _, b := range s.rec {
 		var err error
@@ -838,6 +868,9 @@ func (d *delegRun) exec(op *DOp) {
 				d.tags["duplicate-delivery"]++
 			}
 			d.deliverBytes(pi, b, via, "captured update"+map[bool]string{true: " (mutated: " + op.Mut + ")", false: ""}[op.Mut != ""])
+		}
+		if op.Mut == "skew" && via == "notify" { // a single part is not a full state: the push/pull path owes it nothing
+			d.skewJudge(pi, b, op)
 		}
 	case "raw":
 		via := op.Via
